@@ -12,7 +12,8 @@
 (*                     verifyFSPathEndpoint                                *)
 (*   ClientMkdir       os.OpenRoot(base).Mkdir(leaf)                       *)
 (*   ClientSendsResult the result code message (may fail: SendFails)       *)
-(*   ClientGetsVerdict the server's verification result (may be lost),     *)
+(*   ClientGetsVerdict the server's verification result (may be lost; the  *)
+(*                     server may or may not have removed the directory),  *)
 (*                     then the deferred Root.Remove(leaf) and return      *)
 (* A path is an absolute/relative flag plus a sequence of COMPONENT        *)
 (* CLASSES; the Go side concretises every class (several concrete strings  *)
@@ -64,6 +65,10 @@ VARIABLES
   huge,     \* BOOLEAN: the message exceeds the 4096-byte limit of the client
   fam,      \* 4 | 6
   fault,    \* which network fault this behaviour contains
+  remover,  \* "server" | "nobody": does the SERVER remove the directory while it verifies?
+            \*   cedar's own same-host server does; a C++ peer, a server on another host that
+            \*   shares the filesystem, or a hostile server does not
+  verdict,  \* "any" | "accept" | "refuse": the verification result such a server sends
   accepted, \* outcome of ClientValidates
   created,  \* set of [at : {"base","elsewhere"}, leaf : Comp]: directories that exist because of the client
   result,   \* "unset" | "ok" | "fail" | "none" : the result code the client put on the wire
@@ -74,7 +79,7 @@ VARIABLES
   sres,     \* "unset" | "accept" | "reject"
   ident     \* "none" | "self" | "other": recorded identity (owner class of the object)
 
-cvars == <<abs, path, huge, fam, fault, accepted, created, result, ret>>
+cvars == <<abs, path, huge, fam, fault, remover, verdict, accepted, created, result, ret>>
 svars == <<obj, cres, sres, ident>>
 vars  == <<role, phase, cvars, svars>>
 
@@ -133,8 +138,13 @@ Init ==
      THEN /\ abs \in BOOLEAN /\ path \in Paths /\ fam \in ConnFams /\ fault \in Faults
           /\ (IF abs \/ Len(path) = 0 THEN TRUE ELSE path[1] # "E")   \* a leading empty component IS the absolute form
           /\ huge \in {FALSE} \cup (IF path = <<"B", "Lloc">> /\ abs THEN {TRUE} ELSE {})
+          \* who removes is an environment choice; it is observable only where a directory
+          \* may exist at all, so it is made for the paths the design accepts
+          /\ remover \in IF fault = "none" /\ ~huge /\ Valid(abs, path, fam) THEN {"server", "nobody"} ELSE {"server"}
+          /\ verdict \in IF remover = "nobody" THEN {"accept", "refuse"} ELSE {"any"}
           /\ obj = "absent" /\ cres = "fail"
      ELSE /\ abs = TRUE /\ path = <<>> /\ fam = 4 /\ fault = "none" /\ huge = FALSE
+          /\ remover = "server" /\ verdict = "any"
           /\ obj \in Objects /\ cres \in {"ok", "fail"}
   /\ accepted = FALSE /\ created = {} /\ result = "unset" /\ ret = "unset"
   /\ sres = "unset" /\ ident = "none"
@@ -150,7 +160,7 @@ ClientReceives ==
   /\ IF huge
      THEN \* the message is larger than the client is willing to read: abort, nothing was done
           /\ phase' = "done" /\ ret' = "error" /\ result' = "none"
-          /\ UNCHANGED <<abs, path, huge, fam, fault, accepted, created>>
+          /\ UNCHANGED <<abs, path, huge, fam, fault, remover, verdict, accepted, created>>
      ELSE /\ phase' = "received"
           /\ UNCHANGED cvars
   /\ UNCHANGED <<role, svars>>
@@ -159,7 +169,7 @@ ClientValidates ==
   /\ role = "client" /\ phase = "received"
   /\ accepted' = ImplAccepts
   /\ phase' = "validated"
-  /\ UNCHANGED <<role, abs, path, huge, fam, fault, created, result, ret, svars>>
+  /\ UNCHANGED <<role, abs, path, huge, fam, fault, remover, verdict, created, result, ret, svars>>
 
 ClientMkdir ==
   /\ role = "client" /\ phase = "validated"
@@ -170,7 +180,7 @@ ClientMkdir ==
           /\ result' = "ok"
      ELSE created' = {} /\ result' = IF "SuccessOnInvalid" \in Bug THEN "ok" ELSE "fail"
   /\ phase' = "made"
-  /\ UNCHANGED <<role, abs, path, huge, fam, fault, accepted, ret, svars>>
+  /\ UNCHANGED <<role, abs, path, huge, fam, fault, remover, verdict, accepted, ret, svars>>
 
 ClientSendsResult ==
   /\ role = "client" /\ phase = "made"
@@ -179,16 +189,23 @@ ClientSendsResult ==
           /\ result' = "none" /\ ret' = "error" /\ phase' = "done"
           /\ created' = IF "CleanupAfterSend" \in Bug \/ "NoRemoval" \in Bug THEN created ELSE {}
      ELSE /\ phase' = "replied" /\ UNCHANGED <<result, ret, created>>
-  /\ UNCHANGED <<role, abs, path, huge, fam, fault, accepted, svars>>
+  /\ UNCHANGED <<role, abs, path, huge, fam, fault, remover, verdict, accepted, svars>>
 
 ClientGetsVerdict ==
   /\ role = "client" /\ phase = "replied"
   \* A hostile server answers what it likes, so the return value is constrained
-  \* only when the verdict never arrives.
-  /\ ret' \in IF fault = "verdictLost" THEN {"error"} ELSE {"nil", "error"}
-  /\ created' = IF "NoRemoval" \in Bug THEN created ELSE {}
+  \* only when the verdict never arrives or the behaviour fixes it.
+  /\ ret' \in IF fault = "verdictLost" \/ verdict = "refuse" THEN {"error"}
+              ELSE IF verdict = "accept" THEN {"nil"}
+              ELSE {"nil", "error"}
+  \* The CLIENT removes what it created, whatever the verdict and whoever else may have
+  \* removed it already.  Known wrong design: after a success verdict the client assumes
+  \* that the server removed the directory.
+  /\ created' = IF "NoRemoval" \in Bug THEN created
+                ELSE IF "ClientTrustsServerRemoval" \in Bug /\ ret' = "nil" /\ remover = "nobody" THEN created
+                ELSE {}
   /\ phase' = "done"
-  /\ UNCHANGED <<role, abs, path, huge, fam, fault, accepted, result, svars>>
+  /\ UNCHANGED <<role, abs, path, huge, fam, fault, remover, verdict, accepted, result, svars>>
 
 \* ---------------------------------------------------------------- server
 Owner(o) == IF o = "dirOtherUid" THEN "other" ELSE "self"
